@@ -438,7 +438,7 @@ fn giant_type() -> Type {
 }
 
 pub fn run(ctx: &mut Ctx) {
-    let total = ctx.q(3000, 100000);
+    let total = ctx.q(40000, 800000);
     ctx.cases("histories", total, |ctx, idx| {
         let n_ctx = if ctx.rng.chance(1, 3) { 2 } else { 1 };
         let ctxs: Vec<Context> = (0..n_ctx).map(|_| create_context().unwrap()).collect();
